@@ -176,6 +176,9 @@ func cmdCheck(args []string) int {
 		cfg.Extra(r)
 	}
 	e.SweepConcurrency(cfg.ID)
+	if cfg.ID == "C18" {
+		e.SweepCallSites(cfg.ID)
+	}
 	if cfg.ID == "C14" {
 		e.SweepGlobals("C14", []string{modulePath + "/runtime", modulePath})
 	}
